@@ -103,8 +103,43 @@ func srPermAuth(rng *rand.Rand, auth []gmsl.PDU) []gmsl.PDU {
 	return out
 }
 
+// the directed v1 family (interdependent conflicted member keys): 16 rearrangements each, every
+// one resolved repeatedly, all against the model on the base input
+func srDirectedV1Perms(c *Ctx) {
+	for j := 0; j < c.Scale(8, 60); j++ {
+		in := srDirectedV1(c.Rng)
+		cs := srParse(in.ver, in.evjson)
+		c.Count("directed_v1_histories")
+		desc := fmt.Sprintf("directed v1 history %d: %d events, interdependent conflicted member keys", j, len(in.h.evs))
+		base := [][]byte{[]byte(in.ver), in.universe, srSetsStr(in.sets), srCSV(in.auth), nil, nil, in.evjson}
+		table := srFillTable(cs, "C10.resolve_new", base, 5)
+		var ball []gmsl.PDU
+		for _, s := range in.sets {
+			ball = append(ball, s...)
+		}
+		obase := [][]byte{[]byte(in.ver), in.universe, srCSV(ball), srCSV(in.auth), nil, nil, in.evjson}
+		otable := srFillTable(cs, "C10.resolve_old", obase, 5)
+		for p := 0; p < 16; p++ {
+			psets, pauth := srRearranged(c.Rng, in)
+			args := [][]byte{[]byte(in.ver), in.universe, srSetsStr(psets), srCSV(pauth), nil, table, in.evjson}
+			table = srFillTable(cs, "C10.resolve_new", args, 5)
+			c.Run("C11.resolve_perm", [][]byte{[]byte(in.ver), in.universe, srSetsStr(psets), srCSV(pauth), nil, table, base[2], base[3], in.evjson},
+				"C11.resolve_perm", "C11.prop.perm", desc+fmt.Sprintf(" rearrangement %d", p))
+			var pall []gmsl.PDU
+			for _, s := range psets {
+				pall = append(pall, s...)
+			}
+			oargs := [][]byte{[]byte(in.ver), in.universe, srCSV(pall), srCSV(pauth), nil, otable, in.evjson}
+			otable = srFillTable(cs, "C10.resolve_old", oargs, 5)
+			c.Run("C11.resolve_old_perm", [][]byte{[]byte(in.ver), in.universe, srCSV(pall), srCSV(pauth), nil, otable, obase[2], obase[3], in.evjson},
+				"C11.resolve_old_perm", "C11.prop.old_perm", desc+fmt.Sprintf(" rearrangement %d", p))
+		}
+	}
+}
+
 func propC11(c *Ctx) {
 	srSilence()
+	srDirectedV1Perms(c)
 	rng := c.Rng
 	nh := c.Scale(70, 280)
 	k := c.Scale(8, 64)
